@@ -321,8 +321,13 @@ func tokenizeForSemantics(content string) []semanticToken {
 		}
 
 		length := uint32(lsputil.UTF16Len(tok.Value))
-		if tok.Type == parser.TokenComment {
-			length++
+		switch tok.Type {
+		case parser.TokenComment, parser.TokenCode, parser.TokenCommodity:
+			// the value lacks the delimiters the lexeme is written with (';',
+			// parentheses, quotes): take the length from the token's extent
+			if tok.End.Line == tok.Pos.Line && tok.End.Column > tok.Pos.Column {
+				length = uint32(tok.End.Column - tok.Pos.Column)
+			}
 		}
 
 		tokens = append(tokens, semanticToken{
